@@ -102,9 +102,8 @@ def check(ctx):
     keep = [(b, c) for (b, c) in body.calls if c.get("fname") == "keep_stream_running"]
     none_t = None
     if len(cons) == 1:
-        for b in body.reachable:
-            v = util.variant_edges(body, b)
-            if v and v[0] == cons[0][1]["dst"]["l"]: none_t = v[1].get(0)
+        for (tb, has_t, empty_t) in util.option_test_edges(body, dg, cons[0][1]["dst"]["l"]):
+            none_t = empty_t
     ok = len(cons) == 1 and bool(keep) and none_t is not None and all(body.dominates(none_t, b) for (b, _) in keep)
     ctx.ob("R06.2", f"{k}|flag-consulted-only-when-empty", ok, f"{f['file']}:{f['line']}", "keep_stream_running is consulted only on the None edge of consume: buffered events are yielded before the stream ends")
     ends = [b for b in body.reachable for st in body.stmts(b) if st[0] == "A" and not st[1]["p"] and st[1]["l"] == 0 and st[2][0] == "Agg" and st[2][1][0] == "Adt" and st[2][1][2] == "Ready"
